@@ -11,6 +11,7 @@ from .. import shapes as S
 from ..core import fmt, fmt_list, parse_rats, frac, err_kind, close, exact, floats
 
 ID = "C14"
+THREADS = True       # part of the cases run concurrently in threads of one interpreter (the schedule dimension)
 MODULES = ["TWV.Properties.C14", "TWV.Tie.Vector"]
 TRANSLATORS = ["t3_vector"]
 RULE = ("random series of 2..40 points; trend with callables from a polynomial family (degree <= 2, dyadic coefficients; the "
@@ -38,7 +39,7 @@ def cases(rng, tier):
             c["via"] = rng.choice(["process", "weaver"])
             c["sin"] = False
             # trends whose values are external to the model (judged by the oracle against y_i + f(x_i))
-            c["ext"] = rng.choice([None, None, "sin", "clamp", "step", "intconst", "boolstep", "view", "npstep"])
+            c["ext"] = rng.choice([None, None, "sin", "clamp", "step", "intconst", "boolstep", "view", "npstep", "accum"])
         elif kind == "shiftscale":
             c["ops"] = [[rng.choice(["shift_x", "shift_y", "scale_x", "scale_y"]), str(rng.dyadic(-16, 16, 4))]
                         for _ in range(rng.randint(1, 4))]
@@ -93,6 +94,17 @@ def ext_fun(kind, args):
         return (lambda t: 3), (lambda t: 3.0)
     if kind == "boolstep":       # an indicator
         return (lambda t: t > p), (lambda t: 1.0 if t > p else 0.0)
+    if kind == "accum":          # a Horner evaluator that keeps ONE pre-allocated accumulator and hands it back every time
+        acc = np.zeros(())
+
+        def horner(t, acc=acc):
+            acc[...] = 0.25
+            np.multiply(acc, t, out=acc)
+            np.add(acc, -1.5, out=acc)
+            np.multiply(acc, t, out=acc)
+            np.add(acc, 2.0, out=acc)
+            return acc
+        return horner, (lambda t: (0.25 * t - 1.5) * t + 2.0)
     if kind == "view":           # the identity, handing back a view of its argument when that is an array
         return (lambda t: np.asarray(t).reshape(np.shape(t))), (lambda t: float(t))
     raise ValueError(kind)
